@@ -3,6 +3,7 @@ import MorfuseModel.Sched.TimerLemmas
 import MorfuseModel.Unwind.Lemmas
 import MorfuseModel.Unwind.Spin
 import MorfuseModel.Unwind.Timing
+import MorfuseModel.Unwind.Potential
 /-!
 # C14 — runaway and over-deep scripts are stopped
 
@@ -601,5 +602,133 @@ theorem C14_unwind_activation_bounded_late (E : Env) (δ : Nat) (hL : E.cfg.maxE
 def exRecT : Env := { exRec with cfg := { exRec.cfg with maxExec := 3 }, inc := fun _ => 1 }
 example : (run exRecT 8 (startCall exRecT {} 0)).stack.filterMap (fun f => match f with | .vm t dl _ _ n => some (t, dl, n) | _ => none) =
     [(3, 9, 1), (2, 6, 2), (1, 3, 2)] := by decide
+
+/-! ## Round 3: one termination bound for programs that nest -/
+
+/-- the bound: `T0 + 1` top-level activations (the host call's thread and each thread the scheduler may
+    still resume from the timer list), each at most `N·W(maxStackDepth) + 4` steps with `N = L/δ + 1`,
+    `W(0) = 3`, `W(h+1) = N·W(h) + 6` — exponential in the nesting limit.  (Loose: time spent in nested
+    activations also counts against the outer deadlines, so real programs need only about
+    `2·(maxStackDepth + 1)·(L/δ + 2)` steps; the potential used in the proof does not exploit that.) -/
+def nestBound (L δ D T0 : Nat) : Nat := (T0 + 1) * ((L / δ + 1) * W (L / δ + 1) D + 4)
+
+theorem W_le_pow (N : Nat) : ∀ h, W N h ≤ 9 * (N + 1) ^ h
+  | 0 => by simp [W]
+  | h + 1 => by
+    have ih := W_le_pow N h
+    have h1 : 1 ≤ (N + 1) ^ h := Nat.one_le_pow _ _ (Nat.succ_pos _)
+    have h2 : N * W N h ≤ N * (9 * (N + 1) ^ h) := Nat.mul_le_mul_left N ih
+    simp only [W, Nat.pow_succ]
+    have h3 : 9 * ((N + 1) ^ h * (N + 1)) = N * (9 * (N + 1) ^ h) + 9 * (N + 1) ^ h := by
+      rw [Nat.mul_add, Nat.mul_one, Nat.mul_add, Nat.mul_comm ((N + 1) ^ h) N, ← Nat.mul_assoc, ← Nat.mul_assoc, Nat.mul_comm 9 N]
+    omega
+
+/-- **Every host call of a nesting program returns, within an explicit bound.**  Protection on, limit
+    `L > 0`, a clock that advances by at least `δ > 0` per reading, a program of the class `Nest` (decidable:
+    every opcode is non-yielding, a jump, `end`, `error "x" 1` or `thread l` with a valid label — no `wait`,
+    `waitthread`, `waittill`, `notify`, i.e. nothing that can re-time or wake a thread with zero delay), started in a
+    quiescent state (no current thread, nesting counter 0, no `waitthread` registrations) with `T0` threads in
+    the timer list: the host call has returned — normally or with `CommandOverflow` / `MaxStackDepth` /
+    abort — after at most `nestBound L δ maxStackDepth T0` steps, and then the nesting counter is 0 and no
+    thread is current. -/
+theorem C14_unwind_call_terminates_nested (E : Env) (δ : Nat) (hcls : Nest E.prog = true) (hp : E.cfg.prot = true)
+    (hL : E.cfg.maxExec ≠ 0) (hδ : 0 < δ) (hinc : ∀ i, E.inc i ≥ δ) (s0 : St) (label : Nat)
+    (hc : s0.cur = none) (hd : s0.depth = 0) (hj : NoJoin s0.threads) :
+    ∃ n, n ≤ nestBound E.cfg.maxExec δ E.cfg.maxDepth s0.timer.elems.length ∧
+      halted (run E n (startCall E s0 label)) = true ∧
+      ((run E n (startCall E s0 label)).stack = [] →
+        (run E n (startCall E s0 label)).depth = 0 ∧ (run E n (startCall E s0 label)).cur = none) := by
+  have C : Ctx E δ := ⟨hcls, hp, hL, hδ, hinc⟩
+  have hinv : Inv 0 (startCall E s0 label) := by rw [← hd]; exact startCall_inv E s0 label hc
+  -- the state after `ExecuteThread` has entered (or been refused by) the new VM
+  have hgs : GoodS (startCall E s0 label) := by
+    unfold startCall
+    apply enterSei_good
+    · simp [newThread, lowOK]
+    · simp only [newThread]; exact nojoin_append hj _ _ rfl
+    · rfl
+  obtain ⟨⟨htl, hub⟩, hcase⟩ := startCall_cases E s0 label
+  have htf : TopFetch δ E.cfg.maxExec (startCall E s0 label) := by
+    intro t dl ct n rest hst _
+    rcases hcase with ⟨h1, _⟩ | ⟨dl', ct', h1, _⟩
+    · rw [h1] at hst; cases hst
+    · rw [h1] at hst; cases hst
+      simp only [Nat.zero_mul]; exact Nat.pos_of_ne_zero hL
+  have hgood : Good E δ (startCall E s0 label) := ⟨hinv, startCall_allOK E δ hL hinc s0 label, hgs, htf⟩
+  have hphi : phi (E.cfg.maxExec / δ + 1) E.cfg.maxDepth (startCall E s0 label) ≤
+      nestBound E.cfg.maxExec δ E.cfg.maxDepth s0.timer.elems.length := by
+    have hT := Nat.mul_le_mul_right (Cw (E.cfg.maxExec / δ + 1) E.cfg.maxDepth) htl
+    have hW3 := W_ge3 (E.cfg.maxExec / δ + 1) E.cfg.maxDepth
+    have hmono : s0.timer.elems.length * ((E.cfg.maxExec / δ + 1) * W (E.cfg.maxExec / δ + 1) E.cfg.maxDepth + 3) ≤
+        s0.timer.elems.length * ((E.cfg.maxExec / δ + 1) * W (E.cfg.maxExec / δ + 1) E.cfg.maxDepth + 4) :=
+      Nat.mul_le_mul_left _ (by omega)
+    unfold nestBound
+    rw [Nat.add_mul, Nat.one_mul]
+    simp only [Cw] at hT
+    rcases hcase with ⟨h1, h2⟩ | ⟨dl', ct', h1, h2⟩
+    · unfold phi; rw [h1, h2]
+      split
+      · exact Nat.zero_le _
+      · simp only [Option.isSome_some, if_true, List.length_cons, List.length_nil]; omega
+    · unfold phi; rw [h1, h2]
+      split
+      · exact Nat.zero_le _
+      · simp only [Option.isSome_none, Bool.false_eq_true, if_false, pot, vmCount, Nat.sub_zero, Cw]; omega
+  obtain ⟨n, hn, hh⟩ := halts_within E δ C _ _ hgood hphi
+  refine ⟨n, hn, hh, fun hs => ?_⟩
+  exact inv_halted (run_inv E 0 n _ hinv) hs
+
+/-- the same for a frame (`ScriptContext::Execute`): the threads the scheduler resumes from the timer list -/
+theorem C14_unwind_frame_terminates_nested (E : Env) (δ : Nat) (hcls : Nest E.prog = true) (hp : E.cfg.prot = true)
+    (hL : E.cfg.maxExec ≠ 0) (hδ : 0 < δ) (hinc : ∀ i, E.inc i ≥ δ) (s0 : St)
+    (hc : s0.cur = none) (hd : s0.depth = 0) (hj : NoJoin s0.threads) :
+    ∃ n, n ≤ nestBound E.cfg.maxExec δ E.cfg.maxDepth s0.timer.elems.length ∧
+      halted (run E n (startExecute E s0)) = true := by
+  have C : Ctx E δ := ⟨hcls, hp, hL, hδ, hinc⟩
+  have hinv : Inv 0 (startExecute E s0) := by rw [← hd]; exact startExecute_inv E s0 hc
+  have hshape : ((startExecute E s0).stack = [.ctxExec] ∨ (startExecute E s0).stack = [.execRunning, .ctxExec]) ∧
+      (startExecute E s0).threads = s0.threads ∧ (startExecute E s0).exc = none ∧
+      (startExecute E s0).timer.elems = s0.timer.elems := by
+    simp only [startExecute, execRunningCall]
+    (repeat' split) <;> simp [tick, Sched.Timer.setTime]
+  obtain ⟨hstk, hthr, hexc, htim⟩ := hshape
+  have hgs : GoodS (startExecute E s0) := by
+    refine ⟨?_, by rw [hthr]; exact hj, by intro e he; rw [hexc] at he; cases he⟩
+    rcases hstk with h | h <;> (rw [h]; simp [StackG, topOK, lowOK])
+  have htf : TopFetch δ E.cfg.maxExec (startExecute E s0) := by
+    intro t dl ct n rest hst _
+    rcases hstk with h | h <;> (rw [h] at hst; cases hst)
+  have hgood : Good E δ (startExecute E s0) := ⟨hinv, startExecute_allOK E δ s0, hgs, htf⟩
+  have hphi : phi (E.cfg.maxExec / δ + 1) E.cfg.maxDepth (startExecute E s0) ≤
+      nestBound E.cfg.maxExec δ E.cfg.maxDepth s0.timer.elems.length := by
+    unfold phi nestBound Cw
+    rw [hexc, htim]
+    generalize (E.cfg.maxExec / δ + 1) * W (E.cfg.maxExec / δ + 1) E.cfg.maxDepth = X
+    generalize s0.timer.elems.length = T
+    simp only [Option.isSome_none, Bool.false_eq_true, if_false]
+    split
+    · exact Nat.zero_le _
+    · rw [Nat.add_mul, Nat.one_mul, Nat.mul_add, Nat.mul_add]
+      rcases hstk with h | h <;> (rw [h]; simp only [pot]; omega)
+  obtain ⟨n, hn, hh⟩ := halts_within E δ C _ _ hgood hphi
+  exact ⟨n, hn, hh⟩
+
+/-! ### non-vacuity -/
+/-- three levels of counted loops each spawning the next level (`for (i<3) thread l<k+1>`), 20 ms limit, clock +1:
+    in the class; the time spent in the children runs against the parents' deadlines, the level-0 thread is
+    interrupted; the call has returned after 51 steps, far below the bound -/
+def exFan : Env :=
+  { cfg := { prot := true, maxExec := 20, maxDepth := 5 }, inc := fun _ => 1,
+    prog := [[.setc 3, .loopTest 4, .spawn 1 false, .jmp 1, .done], [.setc 3, .loopTest 4, .spawn 2 false, .jmp 1, .done],
+             [.setc 3, .loopTest 4, .spawn 3 false, .jmp 1, .done], [.done]] }
+example : Nest exFan.prog = true := by decide
+set_option maxRecDepth 100000 in
+example : halted (run exFan 50 (startCall exFan {} 0)) = false ∧ halted (run exFan 51 (startCall exFan {} 0)) = true ∧
+    (run exFan 51 (startCall exFan {} 0)).exc = some .overflow ∧ (run exFan 51 (startCall exFan {} 0)).depth = 0 := by decide
+example : nestBound 20 1 5 0 = 283028197 := by decide
+/-- mutual recursion past the limit (`exRec` has a `waitthread`, so take the `thread`-only variant) -/
+def exRecN : Env := { exRec with prog := [[.nop, .spawn 1 false, .done], [.nop, .spawn 0 false, .done]], cfg := { exRec.cfg with maxExec := 50 }, inc := fun _ => 1 }
+example : Nest exRecN.prog = true ∧ halted (run exRecN 17 (startCall exRecN {} 0)) = true ∧
+    (run exRecN 17 (startCall exRecN {} 0)).exc = some .depth := by decide
 
 end Morfuse.Unwind
